@@ -1750,9 +1750,15 @@ pub fn run(o: &Opts, rec: &mut Recorder) {
         return;
     }
     let mut r = Rng::new(o.seed);
-    let origin = nm("example.");
     let zones = o.n(1000, 6000);
     for zi in 0..zones {
+        // mostly `example.`; sometimes a deeper origin, a one-letter TLD, the root zone
+        let origin = match zi % 16 {
+            5 => nm("z.example."),
+            9 => nm("x."),
+            13 => nm("."),
+            _ => nm("example."),
+        };
         let z = if zi % 3 == 2 { gen_special(&mut r, &origin) } else { gen_zone(&mut r, &origin) };
         let qs = gen_qnames(&mut r, &origin, &z);
         for (i, qn) in qs.iter().enumerate() {
